@@ -115,8 +115,28 @@ def icpt_scripts_from_tlc(ctx, rng, size, walks, depth):
                 steps.append({"a": a, "j": e["j"]})
             else:
                 steps.append({"a": a, "s": e["s"]})
-        scripts.append({"level": "icpt", "size": size, "steps": steps})
+        scripts.append({"level": "icpt", "size": size, "steps": park_writes(rng, steps)})
     return scripts
+
+
+def park_writes(rng, steps):
+    """Turns some writes into writes that are held inside the transport's writer while the following steps (NACKs, resend
+    jobs, other writes) run: the packet is on the wire but its Write call has not returned yet."""
+    if rng.random() < 0.5:
+        return steps
+    out, parked = [], 0
+    for st in steps:
+        if parked:
+            parked -= 1
+            if parked == 0 or st["a"] in ("bind", "unbind", "close"):
+                out.append({"a": "wrelease"})
+                parked = 0
+        if st["a"] == "write" and not parked and rng.random() < 0.35:
+            out.append(dict(st, a="wpark"))
+            parked = rng.choice([2, 3, 5, 8])
+            continue
+        out.append(st)
+    return out
 
 
 def nontrivial(evs):
